@@ -63,14 +63,19 @@ class Suite:
                                      shard_size=self.shard_size)
         return observeds, res
 
+    shrink_budget_s = 150
+
     def shrink(self, workdir, inp, eval_name, max_rounds=12):
         """ shrinking driven by the Coq oracle `eval_name`: each round evaluates all candidates of the current
         input in one batch and keeps the smallest failing one (candidates should include big cuts first) """
         cur = inp
         saved = self.evals
         self.evals = {eval_name: saved[eval_name]}
+        t_start = time.perf_counter()
         try:
             for rnd in range(max_rounds):
+                if time.perf_counter() - t_start > self.shrink_budget_s:
+                    break       # shrinking is a convenience: the verdict never waits for it
                 cands = self.shrink_candidates(cur)
                 if not cands:
                     break
